@@ -1,4 +1,5 @@
 import GoframeModel.Std.SqlLex
+import GoframeModel.Lemmas.SqlLex
 /-
   C13 — table and column names cannot break out of their SQL identifier.
   The lexer is an independent byte machine (Std/SqlLex.lean); the theorems hold for ALL names.
@@ -8,27 +9,27 @@ open Goframe Sql
 
 /-- the identifier text is read back as exactly the name, and lexing stops exactly at its end -/
 theorem lexQuoted_quoteIdent (q : UInt8) (name rest : Str) (h : rest.head? ≠ some q) :
-    lexQuoted q (quoteIdent q name ++ rest) = some (name, rest) := by
-  sorry
+    lexQuoted q (quoteIdent q name ++ rest) = some (name, rest) :=
+  SqlLemmas.lexQuoted_quoteIdent q name rest h
 
 /-- distinct names give distinct identifiers -/
-theorem quoteIdent_injective (q : UInt8) (a b : Str) (h : quoteIdent q a = quoteIdent q b) : a = b := by
-  sorry
+theorem quoteIdent_injective (q : UInt8) (a b : Str) (h : quoteIdent q a = quoteIdent q b) : a = b :=
+  SqlLemmas.quoteIdent_injective q a b h
 
 /-- in the token machine: a quoted identifier followed by any text that does not start with the quote
 character lexes to ONE `qident` token carrying exactly the name, then the tokens of the rest -/
 theorem lex_quoteIdent (d : Dialect) (name rest : Str) (h : rest.head? ≠ some d.q) :
-    run d .top (quoteIdent d.q name ++ rest) = .qident name :: run d .top rest := by
-  sorry
+    run d .top (quoteIdent d.q name ++ rest) = .qident name :: run d .top rest :=
+  SqlLemmas.lex_quoteIdent d name rest h
 
 /-- DROP TABLE: exactly the three expected tokens, for every table name -/
-theorem drop_tokens (d : Dialect) (t : Str) : lex d (render d (.drop t)) = tokensOf d (.drop t) := by
-  sorry
+theorem drop_tokens (d : Dialect) (t : Str) : lex d (render d (.drop t)) = tokensOf d (.drop t) :=
+  SqlLemmas.drop_tokens d t
 
 /-- INSERT: exactly the expected tokens — no name can end its identifier early or add tokens -/
 theorem insert_tokens (d : Dialect) (t : Str) (cols : List Str) (n : Nat) :
-    lex d (render d (.insert t cols n)) = tokensOf d (.insert t cols n) := by
-  sorry
+    lex d (render d (.insert t cols n)) = tokensOf d (.insert t cols n) :=
+  SqlLemmas.insert_tokens d t cols n
 
 /-- a column type is "plain" when it consists of word bytes, blanks, parentheses and commas only and does
 not end in a word byte adjacent to what follows (all types goframe infers are plain) -/
@@ -37,8 +38,8 @@ def PlainType (ty : Str) : Prop :=
 
 /-- CREATE TABLE: exactly the expected tokens for every table and column name (types plain) -/
 theorem create_tokens (d : Dialect) (t : Str) (cols : List (Str × Str)) (hty : ∀ c ∈ cols, PlainType c.2) :
-    lex d (render d (.create t cols)) = tokensOf d (.create t cols) := by
-  sorry
+    lex d (render d (.create t cols)) = tokensOf d (.create t cols) :=
+  SqlLemmas.create_tokens d t cols hty
 
 /-- the pinned `QuoteIdentifier` (no escaping) lets the name a"b end the identifier early: finding D11 -/
 theorem raw_breaks_out :
